@@ -36,6 +36,7 @@ import (
 	"github.com/chrislusf/seaweedfs/weed/pb/volume_server_pb"
 	weed_server "github.com/chrislusf/seaweedfs/weed/server"
 	"github.com/chrislusf/seaweedfs/weed/storage"
+	"github.com/chrislusf/seaweedfs/weed/storage/idx"
 	"github.com/chrislusf/seaweedfs/weed/storage/needle"
 	"github.com/chrislusf/seaweedfs/weed/storage/types"
 	"github.com/chrislusf/seaweedfs/weed/util"
@@ -115,12 +116,35 @@ func decode(n *needle.Needle) (int, int) {
 	return 255, len(b)
 }
 
+// needle-map kinds: an input of every case (source volume = what the volume server's
+// -index flag selects; backup volume = what it is re-opened with for the reads)
+var kinds = []storage.NeedleMapKind{storage.NeedleMapInMemory, storage.NeedleMapLevelDb, storage.NeedleMapLevelDbMedium, storage.NeedleMapLevelDbLarge}
+var kindNames = []string{"memory", "leveldb", "leveldbMedium", "leveldbLarge"}
+
+// idxTerm = the entries of an .idx file as a Coq list of (key, byte offset, Size)
+func idxTerm(path string) string {
+	b, err := ioutil.ReadFile(path)
+	hx.Must(err)
+	es := types.NeedleMapEntrySize
+	if len(b)%es != 0 {
+		panic("idx size is not a multiple of the entry size")
+	}
+	var t []string
+	for i := 0; i+es <= len(b); i += es {
+		key, off, size := idx.IdxFileEntry(b[i : i+es])
+		t = append(t, fmt.Sprintf("(%d, %d, (%d)%%Z)", uint64(key), off.ToActualOffset(), int32(size)))
+	}
+	return "[" + strings.Join(t, "; ") + "]"
+}
+
 type env struct {
-	s      *storage.Store
-	server string // "host:port" whose port+10000 is the gRPC listener
-	dial   grpc.DialOption
-	vid    needle.VolumeId
-	bdir   string
+	skind, bkind int // indexes into kinds
+	s            *storage.Store
+	server       string // "host:port" whose port+10000 is the gRPC listener
+	dial         grpc.DialOption
+	vid          needle.VolumeId
+	bdir         string
+	lastBidx     string // the backup's .idx entries at the last observe
 }
 
 // setClock overwrites the AppendAtNs of the record appended at [off, end of .dat) whose Size field is size
@@ -233,6 +257,8 @@ func readTerm(n *needle.Needle, cnt int, err error) (string, bool) {
 }
 
 // observe reads every key on the source and on a freshly loaded backup volume
+func (e *env) sidxTerm() string { return idxTerm(e.s.GetVolume(e.vid).FileName(".idx")) }
+
 func (e *env) observe(nkeys int) (string, bool) {
 	var sr, br []string
 	served := false
@@ -245,7 +271,10 @@ func (e *env) observe(nkeys int) (string, bool) {
 		sr = append(sr, t)
 		served = served || ok
 	}
-	bv, err := storage.NewVolume(e.bdir, e.bdir, "", e.vid, storage.NeedleMapInMemory, nil, nil, 0, 0)
+	// the backup volume is re-opened with the case's backup-side kind (a LevelDb map is
+	// rebuilt from the .idx the run left); the .ldb directory is removed afterwards so that
+	// the next run starts from what runBackup itself leaves on disk
+	bv, err := storage.NewVolume(e.bdir, e.bdir, "", e.vid, kinds[e.bkind], nil, nil, 0, 0)
 	hx.Must(err)
 	bdat, bidx, _ := bv.FileStat()
 	for k := 1; k <= nkeys; k++ {
@@ -255,7 +284,10 @@ func (e *env) observe(nkeys int) (string, bool) {
 		br = append(br, t)
 	}
 	brev := bv.SuperBlock.CompactionRevision
+	bidxFile := bv.FileName(".idx")
 	bv.Close()
+	hx.Must(os.RemoveAll(bv.FileName(".ldb")))
+	e.lastBidx = idxTerm(bidxFile)
 	es := uint64(types.NeedleMapEntrySize)
 	if sidx%es != 0 || bidx%es != 0 {
 		panic("idx size is not a multiple of the entry size")
@@ -350,29 +382,36 @@ var B, C, R = op{kind: 'B'}, op{kind: 'C'}, op{kind: 'R'}
 const MiB = 1 << 20
 
 type fixed struct {
-	kind  string
-	nkeys int
-	h     []op
+	kind   string
+	nkeys  int
+	h      []op
+	sk, bk int // needle-map kinds of the source / of the re-opened backup
 }
 
 // deterministic first cases: the witnesses of the findings (the Coq witnesses of
 // props/C37.v followed by further runs), the examples of props/C37.v, and transport-size cases
 var fixedCases = []fixed{
 	// finding 0: key 1 is written after the last pull and then moved into the key-ordered region by a source compaction
-	{"witness-compacted-before-pull", 3, []op{W(3, 1, 8, 10), B, W(1, 2, 8, 20), C, B, B, W(2, 3, 8, 30), B}},
+	{"witness-compacted-before-pull", 3, []op{W(3, 1, 8, 10), B, W(1, 2, 8, 20), C, B, B, W(2, 3, 8, 30), B}, 0, 0},
 	// finding 0, a late start: the search lands inside the appended region, an overwrite made before the compaction is never pulled
-	{"witness-compacted-before-pull-late-start", 3, []op{W(1, 1, 8, 10), W(2, 1, 8, 20), B, W(1, 2, 17, 30), D(2, 40), C, W(3, 0, 3, 50), B, B}},
+	{"witness-compacted-before-pull-late-start", 3, []op{W(1, 1, 8, 10), W(2, 1, 8, 20), B, W(1, 2, 17, 30), D(2, 40), C, W(3, 0, 3, 50), B, B}, 1, 0},
 	// finding 0, second form: the compaction drops an unpulled tombstone, the backup keeps serving the deleted blob
-	{"witness-delete-resurrected", 3, []op{W(1, 1, 8, 10), W(2, 1, 8, 20), B, D(1, 30), W(3, 2, 8, 40), C, B, B}},
+	{"witness-delete-resurrected", 3, []op{W(1, 1, 8, 10), W(2, 1, 8, 20), B, D(1, 30), W(3, 2, 8, 40), C, B, B}, 1, 1},
 	// finding 1: no compaction; the clock reads the same nanosecond twice / steps back
-	{"witness-equal-ts", 3, []op{W(1, 1, 8, 10), B, W(2, 2, 8, 10), B, B, W(3, 1, 8, 20), B}},
-	{"witness-clock-step", 3, []op{W(1, 1, 8, 20), B, W(2, 2, 8, 15), B, B}},
+	{"witness-equal-ts", 3, []op{W(1, 1, 8, 10), B, W(2, 2, 8, 10), B, B, W(3, 1, 8, 20), B}, 0, 1},
+	{"witness-clock-step", 3, []op{W(1, 1, 8, 20), B, W(2, 2, 8, 15), B, B}, 2, 0},
 	// props/C37.v c37_example, c37_example_harmless (+ the destroy-and-full-copy run of c37_example_destroy)
-	{"example", 4, []op{W(2, 1, 8, 1), W(1, 1, 300, 2), B, W(1, 2, 17, 3), D(2, 4), W(3, 0, 3, 5), B, C, W(2, 3, 40, 6), B, B, C, C, W(1, 0, 1, 7), B}},
-	{"example-harmless-recopy-destroy", 7, []op{W(5, 1, 8, 15), W(3, 1, 8, 18), W(2, 1, 8, 20), B, W(1, 1, 8, 60), B, W(7, 1, 8, 70), W(7, 2, 8, 65), C, B, B, B}},
+	{"example", 4, []op{W(2, 1, 8, 1), W(1, 1, 300, 2), B, W(1, 2, 17, 3), D(2, 4), W(3, 0, 3, 5), B, C, W(2, 3, 40, 6), B, B, C, C, W(1, 0, 1, 7), B}, 1, 1},
+	{"example-harmless-recopy-destroy", 7, []op{W(5, 1, 8, 15), W(3, 1, 8, 18), W(2, 1, 8, 20), B, W(1, 1, 8, 60), B, W(7, 1, 8, 70), W(7, 2, 8, 65), C, B, B, B}, 3, 2},
 	// more than one 2 MiB chunk of sendFileContent per run, a chunk boundary inside a needle, reload of the source in between
-	{"transport-3MiB", 4, []op{W(1, 1, MiB+17, 10), W(2, 2, MiB, 20), W(3, 3, MiB+300, 30), B, R, W(1, 0, 2*MiB+40, 40), D(2, 50), B, B}},
-	{"transport-5MiB-compacted", 3, []op{W(1, 1, 2*MiB+1, 10), W(2, 3, 2*MiB+3, 20), W(1, 2, MiB, 30), B, C, W(3, 2, MiB-1, 40), B, R, B}},
+	{"transport-3MiB", 4, []op{W(1, 1, MiB+17, 10), W(2, 2, MiB, 20), W(3, 3, MiB+300, 30), B, R, W(1, 0, 2*MiB+40, 40), D(2, 50), B, B}, 1, 0},
+	{"transport-5MiB-compacted", 3, []op{W(1, 1, 2*MiB+1, 10), W(2, 3, 2*MiB+3, 20), W(1, 2, MiB, 30), B, C, W(3, 2, MiB-1, 40), B, R, B}, 0, 3},
+	// a deletion is the FIRST change after a backup run (alone, then followed by writes), once per source kind:
+	// the tombstone's idx entry is the only thing that tells the next run where to start
+	{"delete-first-after-pull", 3, []op{W(1, 1, 8, 10), W(2, 2, 17, 20), B, D(1, 30), B, B, W(3, 0, 3, 40), B, D(2, 50), W(1, 3, 8, 60), B, C, B}, 0, 0},
+	{"delete-first-after-pull", 3, []op{W(1, 1, 8, 10), W(2, 2, 17, 20), B, D(1, 30), B, B, W(3, 0, 3, 40), B, D(2, 50), W(1, 3, 8, 60), B, C, B}, 1, 1},
+	{"delete-first-after-pull", 3, []op{W(1, 1, 8, 10), W(2, 2, 17, 20), B, D(1, 30), R, B, B, W(3, 0, 3, 40), B, D(2, 50), W(1, 3, 8, 60), R, B, C, B}, 2, 3},
+	{"delete-first-after-pull", 3, []op{W(1, 1, 8, 10), W(2, 2, 17, 20), B, D(1, 30), B, B, W(3, 0, 3, 40), B, D(2, 50), W(1, 3, 8, 60), B, C, B}, 3, 0},
 }
 
 func main() {
@@ -416,7 +455,7 @@ func main() {
 	sync := transcriptionInSync()
 	out.Count(fmt.Sprintf("runBackup-transcription-in-sync:%v", sync), 1)
 
-	out.Rule = "cases 0.." + strconv.Itoa(len(fixedCases)-1) + " fixed: witnesses of findings 0 (three forms) and 1 (equal clock reading, clock step back), the examples of props/C37.v (incl. superset re-copy and destroy-and-full-copy), two transport cases (3-5 MiB per run: several 2 MiB chunks of sendFileContent, source reload); then random histories (4..24 ops, always ending with a backup run) of Write(key,tag<4,len in {1,3,8,17,40,300},AppendAtNs) / Delete(key,AppendAtNs) on the source volume (Store.WriteVolumeNeedle/DeleteVolumeNeedle; tags 2,3 carry name/mime/last-modified/pairs; the AppendAtNs bytes of the appended record are then overwritten with the op's clock reading), Compact (Store.CompactVolume+CommitCompactVolume = Compact2+CommitCompact), Reload (Unmount+Mount of the source volume, 1/3 of the cases) and Backup (command.VerifC37RunBackup = runBackup's text over the real gRPC VolumeSyncStatus/VolumeIncrementalCopy) over 3..6 keys; classes: 'pulled' (backup run before every compaction that follows unpulled mutations, strictly increasing clock), 'free' (compactions anywhere, increasing clock), 'noisy' (compactions anywhere; 15% equal clock readings, 15% backward steps); after every backup run all keys are read on the source and on the freshly re-loaded backup volume (all needle fields compared), .dat sizes, .idx entry counts and compaction revisions of both are recorded; non-trivial = some source read served a blob at some backup run; distinct = canonical op list"
+	out.Rule = "cases 0.." + strconv.Itoa(len(fixedCases)-1) + " fixed: witnesses of findings 0 (three forms) and 1 (equal clock reading, clock step back), the examples of props/C37.v (incl. superset re-copy and destroy-and-full-copy), two transport cases (3-5 MiB per run: several 2 MiB chunks of sendFileContent, source reload), a deletion as the first change after a backup run once per source needle-map kind; every case has a source needle-map kind (memory/leveldb/leveldbMedium/leveldbLarge 40/40/10/10%: AddVolume, re-mount and compaction use it) and a kind the backup volume is re-opened with for the reads (80/10/5/5%); then random histories (4..24 ops, always ending with a backup run) of Write(key,tag<4,len in {1,3,8,17,40,300},AppendAtNs) / Delete(key,AppendAtNs) on the source volume (Store.WriteVolumeNeedle/DeleteVolumeNeedle; tags 2,3 carry name/mime/last-modified/pairs; the AppendAtNs bytes of the appended record are then overwritten with the op's clock reading), Compact (Store.CompactVolume+CommitCompactVolume = Compact2+CommitCompact), Reload (Unmount+Mount of the source volume, 1/3 of the cases) and Backup (command.VerifC37RunBackup = runBackup's text over the real gRPC VolumeSyncStatus/VolumeIncrementalCopy) over 3..6 keys; classes: 'pulled' (backup run before every compaction that follows unpulled mutations, strictly increasing clock), 'free' (compactions anywhere, increasing clock), 'noisy' (compactions anywhere; 15% equal clock readings, 15% backward steps); after every backup run all keys are read on the source and on the freshly re-loaded backup volume (all needle fields compared), .dat sizes, .idx entry counts and compaction revisions of both and every entry (key, byte offset, Size) of the backup's .idx are recorded; every entry of the source's .idx is recorded after EVERY operation; non-trivial = some source read served a blob at some backup run; distinct = kinds + canonical op list"
 	root := hx.NewRng(out.Seed)
 	for i := 0; i < out.N; i++ {
 		r := root.Fork()
@@ -425,16 +464,25 @@ func main() {
 		reloads := r.Chance(1, 3)
 		var h []op
 		kind := []string{"pulled", "free", "noisy"}[class]
+		// source kind: memory 40%, leveldb 40%, leveldbMedium 10%, leveldbLarge 10%; the backup is re-opened
+		// with memory 80%, leveldb 10%, leveldbMedium 5%, leveldbLarge 5% (a LevelDb re-open rebuilds the db
+		// from the .idx at every observation: 2-3 times the cost of a case)
+		e.skind = []int{0, 0, 0, 0, 1, 1, 1, 1, 2, 3}[r.Intn(10)]
+		e.bkind = []int{0, 0, 0, 0, 0, 0, 0, 0, 0, 0, 0, 0, 0, 0, 0, 0, 1, 1, 2, 3}[r.Intn(20)]
 		if i < len(fixedCases) {
 			h, nkeys, kind = fixedCases[i].h, fixedCases[i].nkeys, fixedCases[i].kind
+			e.skind, e.bkind = fixedCases[i].sk, fixedCases[i].bk
 		} else {
 			h = genHistory(r, nkeys, class == 0, class == 2, reloads)
 		}
+		out.Count("source-needle-map:"+kindNames[e.skind], 1)
+		out.Count("backup-reopened-with:"+kindNames[e.bkind], 1)
 		e.vid = needle.VolumeId(i + 1)
-		hx.Must(e.s.AddVolume(e.vid, "", storage.NeedleMapInMemory, "000", "", 0, 0, types.HardDriveType))
+		e.s.NeedleMapKind = kinds[e.skind] // Store.MountVolume (reload) loads with the store's kind = the server's -index flag
+		hx.Must(e.s.AddVolume(e.vid, "", kinds[e.skind], "000", "", 0, 0, types.HardDriveType))
 		e.bdir, err = os.MkdirTemp("", "c37-bk")
 		hx.Must(err)
-		var ops, obs, canon []string
+		var ops, obs, canon, sidx, bidx []string
 		served := false
 		for _, o := range h {
 			if o.kind != 'R' {
@@ -461,8 +509,15 @@ func main() {
 				e.compact()
 				out.Count("op:compact", 1)
 			case 'R':
+				before := e.sidxTerm()
 				e.reload()
 				out.Count("op:reload-source", 1)
+				// a reload is no model step: the .idx must come back unchanged; if it does not, the
+				// changed file replaces the snapshot of the preceding op (which then differs from the model's)
+				if after := e.sidxTerm(); after != before && len(sidx) > 0 {
+					sidx[len(sidx)-1] = after
+					out.Count("reload-changed-idx", 1)
+				}
 			case 'B':
 				lc, de := e.runBackup()
 				if lc {
@@ -473,14 +528,19 @@ func main() {
 				}
 				t, sv := e.observe(nkeys)
 				obs = append(obs, t)
+				bidx = append(bidx, e.lastBidx)
 				served = served || sv
 				out.Count("op:backup", 1)
+			}
+			if o.kind != 'R' {
+				sidx = append(sidx, e.sidxTerm()) // the source's .idx after EVERY operation
 			}
 		}
 		hx.Must(e.s.DeleteVolume(e.vid))
 		os.RemoveAll(e.bdir)
-		term := fmt.Sprintf("({| nkeys := %d; ops := [%s]; sync := %v; impl := [%s] |})%%N", nkeys, strings.Join(ops, "; "), sync, strings.Join(obs, "; "))
-		out.Add(term, strconv.Itoa(nkeys)+":"+strings.Join(canon, ";"), served, kind)
+		term := fmt.Sprintf("({| nkeys := %d; skind := %d; bkind := %d; ops := [%s]; sync := %v; impl := [%s]; sidx := [%s]; bidx := [%s] |})%%N",
+			nkeys, e.skind, e.bkind, strings.Join(ops, "; "), sync, strings.Join(obs, "; "), strings.Join(sidx, "; "), strings.Join(bidx, "; "))
+		out.Add(term, fmt.Sprintf("%d/%s>%s:", nkeys, kindNames[e.skind], kindNames[e.bkind])+strings.Join(canon, ";"), served, kind+"/"+kindNames[e.skind])
 	}
 	out.Write()
 }
